@@ -119,6 +119,12 @@ func Sites(fn *ssa.Function) []Site {
 					s.Args = append(s.Args, t.T(a))
 				}
 			case *ssa.Store:
+				if ia, ok := x.Addr.(*ssa.IndexAddr); ok {
+					s.Kind = "elemstore"
+					s.Target = t.T(ia.X)
+					s.Args = []string{t.T(ia.Index), t.T(x.Val)}
+					break
+				}
 				fv, base := fieldOf(x.Addr)
 				if fv == nil {
 					continue
